@@ -251,6 +251,12 @@ func (r *Run) Finish() {
 	for k, v := range r.extra {
 		cov[k] = v
 	}
+	if alt := os.Getenv("VERIF_ARCH_ALT"); alt != "" {
+		cov["other_target_architectures"] = alt // the same check built and run for other GOARCH values first (vcheck, ARCH marker)
+	}
+	if a := os.Getenv("VERIF_ARCH"); a != "" {
+		cov["target_architecture"] = a
+	}
 	cov["evaluations"] = r.evals.Load()
 	cov["distinct_nontrivial"] = r.nontrivial.Load()
 	cov["rule"] = r.rule
